@@ -91,6 +91,8 @@ int String :: LastIndexOfIgnoreCase(char ch, uint32 f) const
    if (lowerChar == upperChar) return LastIndexOf(ch, f);
    else
    {
+      if (f >= Length()) return -1;  // nothing to search (also keeps the signed loop-comparison below from misbehaving when (f) is too large to fit into an int32)
+
       const char * p = Cstr();
       for (int32 i=((int32)Length())-1; i>=(int32)f; i--) if ((p[i] == lowerChar)||(p[i] == upperChar)) return i;
       return -1;
